@@ -240,12 +240,54 @@ def oracle(chk, seqs, label, uncached_max_depth=3):
                         "hits": recs[len(recs) // 2]["hits"]})
 
 
+def strip_prefix(toks):
+    if toks[:3] == ["KeywordLet", "IdentifierValue", "OperatorEqual"]:
+        return toks[3:]
+    if toks[:1] == ["KeywordRes"]:
+        return toks[1:]
+    return toks
+
+
+ENTRIES = ["expression", "term", "statement", "declaration", "content", "transfer"]
+
+
+def other_entries(chk, rng, tails, limit):
+    """memoisation must be invisible at every memoised production, not only below `program` (which discards the errors of
+    its inner productions): the tails of the family members go through the other public entry points, with and without
+    the memo table; result, end cursor, tree and error (message and position) must be equal"""
+    tails = [list(t) for t in tails if t and sum(1 for k in t if k in OPENS) <= 3]
+    if len(tails) > limit:
+        tails = rng.sample(tails, limit)
+    cases = [{"kinds": t, "entry": e, "uncached": True} for t in tails for e in ENTRIES]
+    obs = run_oalv_parallel("parse-kinds", cases, jobs=12)
+    same = errs = 0
+    for c, o in zip(cases, obs):
+        if o.get("outcome") == "skipped":
+            continue
+        if o.get("outcome") != "ok":
+            chk.violation("C12|parser-%s" % o.get("outcome"), "the real parser %s at entry %s on %s" % (o.get("outcome"), c["entry"], " ".join(c["kinds"])), {"case": c})
+            continue
+        rc, ru = real_outcome(o["cached"], len(c["kinds"])), real_outcome(o["uncached"], len(c["kinds"]))
+        if rc != ru:
+            chk.violation("C12|memo-visible|entry-%s" % c["entry"], "cached and uncached parse differ at entry %s on: %s (cached %s, uncached %s)" % (
+                c["entry"], " ".join(c["kinds"]), json.dumps(rc)[:160], json.dumps(ru)[:160]), {"kinds": c["kinds"], "entry": c["entry"], "cached": rc, "uncached": ru})
+        else:
+            same += 1
+            errs += 0 if rc["ok"] else 1
+    chk.cov["evaluations"] += len(cases)
+    chk.cov["traces_validated_against_impl"] += same
+    chk.notes["other_entries"] = {"tails": len(tails), "entries": ENTRIES, "compared_equal": same, "of_which_errors": errs}
+    if same and errs < same // 20:
+        raise common.ToolError("other entry points: almost no failing parses among the compared ones (%d of %d)" % (errs, same))
+
+
 def run(tier):
     chk = Check("C12", tier)
     rng = random.Random(common.seed())
     common.build_harness()
     nontrivial = 0
     maxratio = 0.0
+    tails = set()
     for fam in FAMILIES + ["triv"]:
         cfg = "Peg_%s_%s.cfg" % (fam, tier)
         r = run_tlc("PegMC", cfg, workers=8 if tier == "quick" else 16, timeout=7200, java_opts=JAVA, xmx="12g")
@@ -259,6 +301,7 @@ def run(tier):
         obs = run_oalv_parallel("parse-kinds", [{"kinds": c["toks"], "entry": "program", "uncached": bool(c.get("unc"))} for c in cases], jobs=12)
         for c, o in zip(cases, obs):
             compare_member(chk, c, o, fam)
+            tails.add(tuple(strip_prefix(c["toks"])))
             n = len(c["toks"])
             maxratio = max(maxratio, c["reads"] / float(n + 1))
             consumed = (c["c"]["rest"] - 1) if c["c"]["ok"] else 0
@@ -270,6 +313,7 @@ def run(tier):
             m = cases[len(cases) * 3 // 4]
             chk.sample({"family": fam, "tokens": m["toks"], "spec_reads": m["reads"], "spec_hits": m["hits"], "spec_cache": m["cache"],
                         "spec_uncached_reads": m.get("ureads")})
+    other_entries(chk, rng, sorted(tails), 2500 if tier == "quick" else 40000)
     chk.cov["distinct_nontrivial"] = nontrivial
     chk.notes["max_reads_per_token_families"] = round(maxratio, 2)
     chk.notes["linear_K"] = LINEAR_K
@@ -365,7 +409,7 @@ def replay(path):
     d = json.load(open(path))
     c = d["case"]
     common.build_harness()
-    o = common.run_oalv("parse-kinds", [{"kinds": c["kinds"], "entry": "program", "uncached": len(c["kinds"]) < 40}])[0]
+    o = common.run_oalv("parse-kinds", [{"kinds": c["kinds"], "entry": c.get("entry", "program"), "uncached": len(c["kinds"]) < 40}])[0]
     print("tokens:", " ".join(c["kinds"]))
     print("specification:", json.dumps(c.get("spec"))[:1500])
     print("real:", json.dumps(o)[:1500])
